@@ -234,6 +234,14 @@ fn curated() -> Vec<Family> {
             v.push(f(shape, s, ""));
         }
     }
+    // n unterminated openers, then a tail that is a proper prefix of the closer (a "no closer ahead" memo that is
+    // only set when the scan reaches the very end shows only here)
+    for (pl, suf) in [("<?x ", "x?\n"), ("<!--x ", "x-\n"), ("<!--x ", "x--\n"), ("<![CDATA[x ", "x]\n"), ("<![CDATA[x ", "x]]\n"), ("<!x ", "x\n"), ("<a ", "x\n")] {
+        let mut close = b"a ".to_vec();
+        close.push(1);
+        close.extend_from_slice(suf.as_bytes());
+        v.push(Family { shape: "wrap", frag: pl.as_bytes().to_vec(), close, curated: true });
+    }
     // reference definitions + many uses
     v.push(f("repraw", "[a] ", ""));
     // a head that leaves something on the delimiter / bracket stack, then n copies of a fragment
@@ -744,6 +752,14 @@ fn icount_line_families() -> Vec<Family> {
     }
     v.push(f("rows", "|a", "|-"));
     v.push(f("rows", "|a ", "|:-:"));
+    // n unterminated openers and a tail that is a proper prefix of the closer: the scanners' work is not seen by the
+    // step counters, only by the instruction counts
+    for (pl, suf) in [("<?x ", "x?\n"), ("<!--x ", "x--\n"), ("<![CDATA[x ", "x]]\n")] {
+        let mut close = b"a ".to_vec();
+        close.push(1);
+        close.extend_from_slice(suf.as_bytes());
+        v.push(Family { shape: "wrap", frag: pl.as_bytes().to_vec(), close, curated: true });
+    }
     v
 }
 
